@@ -51,7 +51,29 @@ def gen_positions(rng, n, model, lo=0.0, hi=1000.0):
 
 
 def gen_case(rng, max_n=200, heavy_ok=False):
-    """Return (labels, options, tag)."""
+    """Return (labels, options, tag).  One case in eight is the generated case moved along the axis so that one of its
+    bounds lands exactly on the origin (a bound of 0 is a bound) or the whole layout lies on the negative side."""
+    labels, opts, tag = _gen_case(rng, max_n, heavy_ok)
+    if rng.random() < 0.125 and not tag.startswith("far/"):
+        r = rng.random()
+        if r < 0.45 and opts.get("maxPos") is not None:
+            sh = -float(opts["maxPos"])
+        elif r < 0.7 and opts.get("minPos") is not None:
+            sh = -float(opts["minPos"])
+        else:
+            sh = -rng.choice([1000.0, 2500.0, 4096.0])
+        if sh:
+            labels = [{"pos": l["pos"] + sh, "w": l["w"]} for l in labels]
+            if "minPos" not in opts:
+                opts["minPos"] = 0  # the engine's default lower bound moves along with everything else
+            for k in ("minPos", "maxPos"):
+                if opts.get(k) is not None:
+                    opts[k] = opts[k] + sh
+            tag = tag + "+moved"
+    return labels, opts, tag
+
+
+def _gen_case(rng, max_n=200, heavy_ok=False):
     n = rng.choice([1, 2, 3, 5, 8, 15, 30, 60] * 3 + [120, 120, 200])
     n = min(n, max_n)
     r = rng.random()
@@ -91,7 +113,7 @@ def gen_case(rng, max_n=200, heavy_ok=False):
             opts["minPos"] = rng.choice([-50, 30, 0.5, None])
         tag = "bounded" if opts.get("minPos", 0) is not None else "upper-only"
     opts["density"] = rng.choice([0.3, 0.75, 0.85, 0.85, 1])
-    opts["stubWidth"] = rng.choice([0, 1, 1, 4])
+    opts["stubWidth"] = rng.choice([0, 1, 1, 4, 1.5, 2.5, 0.5])
     opts["algorithm"] = rng.choice(["overlap", "overlap", "simple", "none"])
     if opts["algorithm"] == "overlap" and "maxPos" in opts and model in ("clusters", "ties") and n > 60:
         # the layering step itself is quadratic per layer on heavily overlapping sets (26 s for 200 labels):
